@@ -63,6 +63,9 @@ func (x *Exec) goStmt(fr *frame, i *ssa.Go, st *State, r string) {
 // (a listed callee that returns a non-nil error raises the ghost flag envfail).
 func (x *Exec) callCommon(fr *frame, ins ssa.CallInstruction, c *ssa.CallCommon, st *State, r string, isDefer bool) (Val, string) {
 	res, r2 := x.callCommon0(fr, ins, c, st, r, isDefer)
+	if fr.top && fr.c != nil && x.lastSite != nil && x.lastSite.Instr == ins {
+		x.siteAssumes(fr, x.lastSite, res, st, r2)
+	}
 	if x.envCalls != nil {
 		rt := c.Signature().Results()
 		if name := x.calleeName(c); x.envCalls[name] && rt.Len() > 0 && isErrType(rt.At(rt.Len()-1).Type()) && len(res) >= 3 {
@@ -102,6 +105,7 @@ func (x *Exec) callCommon0(fr *frame, ins ssa.CallInstruction, c *ssa.CallCommon
 	if x.trace != nil {
 		x.trace.add(cs)
 	}
+	x.lastSite = cs
 	cs.Class = effectClass(name)
 	if cs.Class != "" && mutatingClass(cs.Class) {
 		st.Ghost["effects"] = x.vc.S.def("g_effects", ic(add(ghost(st, "effects"), "1"))).T
@@ -114,7 +118,7 @@ func (x *Exec) callCommon0(fr *frame, ins ssa.CallInstruction, c *ssa.CallCommon
 	defer func() { cs.Mark = x.vc.S.mark() }()
 	// accesses to lock-guarded fields through calls: atomic operations and delete()
 	if len(c.Args) > 0 && (strings.HasPrefix(name, "(*sync/atomic.") || name == "builtin.delete" || name == "builtin.len") {
-		x.guardedAccess(fr, ins, c.Args[0], st, r)
+		x.guardedAccess(fr, ins, c.Args[0], st, r, name != "builtin.len")
 	}
 	if m, ok := x.over[name]; ok {
 		res, r = m(x, fr, ins, c, args, st, r)
@@ -424,7 +428,7 @@ func (x *Exec) appendBuiltin(c *ssa.CallCommon, args []Val, st *State, r string)
 func (x *Exec) siteAsserts(fr *frame, cs *CallSite, st *State, r string) {
 	covered := false
 	for k, sa := range fr.c.Asserts {
-		if !calleeMatch(sa.Callee, cs.Callee) {
+		if sa.Assume || !calleeMatch(sa.Callee, cs.Callee) {
 			continue
 		}
 		if sa.Ord != 0 && sa.Ord != cs.Ord {
@@ -451,6 +455,47 @@ func (x *Exec) siteAsserts(fr *frame, cs *CallSite, st *State, r string) {
 		}
 		t := x.evalBool(env, sa.Cl.Expr)
 		x.vc.oblige(fmt.Sprintf("%s#site:%s#%d.%d", x.eng.fnKey(fr.fn), sa.Callee, cs.Ord, k+1), "site", r, t, x.eng.pos(cs.Pos))
+	}
+}
+
+// siteAssumes: `after call C assume E` -- E (over arg0.., res0..) is taken as a fact about
+// what the environment returned at this site; every use is listed among the assumptions.
+func (x *Exec) siteAssumes(fr *frame, cs *CallSite, res Val, st *State, r string) {
+	for k, sa := range fr.c.Asserts {
+		if !sa.Assume || !calleeMatch(sa.Callee, cs.Callee) {
+			continue
+		}
+		if sa.Ord != 0 && sa.Ord != cs.Ord {
+			continue
+		}
+		if x.assertHits == nil {
+			x.assertHits = map[int]int{}
+		}
+		x.assertHits[k]++
+		env := x.specEnv(fr, st, cs.Instr.Block(), 0)
+		env.site = cs
+		for j, a := range cs.Args {
+			var ty types.Type
+			if j < len(cs.ArgVals) {
+				ty = cs.ArgVals[j].Type()
+			}
+			env.names[fmt.Sprintf("arg%d", j)] = svOfVal(a, ty)
+		}
+		rt := cs.Instr.Common().Signature().Results()
+		for j := 0; j < rt.Len(); j++ {
+			off := x.vc.ls.tupleOff(rt, j)
+			if rt.Len() == 1 {
+				off = 0
+			}
+			n := x.vc.ls.size(rt.At(j).Type())
+			if off+n <= len(res) {
+				env.names[fmt.Sprintf("res%d", j)] = svOfVal(res[off:off+n], rt.At(j).Type())
+			}
+		}
+		x.vc.S.fact(r, x.evalBool(env, sa.Cl.Expr))
+		x.vc.note("assumed after the call to %s in %s: %s", cs.Callee, x.eng.fnKey(fr.fn), sa.Cl.Text)
+		// the assumption must not make the continuation unreachable
+		x.vc.cover(fmt.Sprintf("%s#cover:assume:%s#%d", x.eng.fnKey(fr.fn), sa.Callee, cs.Ord), r, x.eng.pos(cs.Pos))
 	}
 }
 
